@@ -311,6 +311,8 @@ class Kinds(object):
                     c = C.CliffordCircuit(N)
             else:
                 c = C.Circuit(N)
+            if variant == -1:
+                return c                 # a circuit that has not taken any gate yet
             c.take(self.new("CliffordGate", v))
             c.take(self._g0())
             c.take(self.new("CliffordGate", (v + 1) % 3))
@@ -636,10 +638,10 @@ def _after(self, scn, be, K):
     for ent in K.methods[kind]:
         if ent[1] == "argmut" or ent[0] in RANDOM_Q or not im:
             continue
-        for ie in im[:3]:
+        for ie in im[:3] + ([("empty:" + e[0],) + tuple(e[1:]) for e in im[:3]] if kind in ("CliffordCircuit", "Circuit") else []):
             rec = {"op": "after", "kind": kind, "meth": ent[0], "via": ie[0]}
             try:
-                o, a, x = K.new(kind, v), K.new(kind, v + 1), K.aux(v)
+                o, a, x = K.new(kind, -1 if ie[0].startswith("empty:") else v), K.new(kind, v + 1), K.aux(v)
                 be.seed(3)
                 try:
                     ent[2](o, a, x)
